@@ -48,7 +48,9 @@ Definition cuboid_B (at2 : R -> R -> R) (obs dim pol : R * R * R) : R * R * R :=
 Definition Rleb (a b : R) : bool := if Rle_dec a b then true else false.
 Definition RWrap : NumOps := {|
   F := R; f0 := 0; f1 := 1; fadd := Rplus; fsub := Rminus; fmul := Rmult; fdiv := Rdiv;
-  fopp := Ropp; finv := Rinv; fabs := Rabs; fsqrt := sqrt; fofZ := IZR;
+  fopp := Ropp; finv := Rinv; fabs := Rabs; fsqrt := sqrt;
+  fceil := fun x => - IZR (up (- x) - 1);        (* ceil x = - floor (- x) *)
+  fofZ := IZR;
   feqb := Reqb; fltb := Rltb; fleb := Rleb |}.
 
 (* BHJM_magnet_cuboid over R with this core *)
